@@ -254,9 +254,15 @@ func (l *libClient) Close() {
 
 // ConnectLib builds and initializes the library client for a world (child spec only for stdio).
 func (w *World) ConnectLib(real bool, child *ChildSpec, opts ...mcp.ClientOption) (*libClient, error) {
+	return w.ConnectLibWithin(20*time.Second, real, child, opts...)
+}
+
+// ConnectLibWithin is ConnectLib with the deadline of the context the handshake is performed under: the handshake's
+// context bounds the handshake, not the life of the connection it sets up.
+func (w *World) ConnectLibWithin(handshake time.Duration, real bool, child *ChildSpec, opts ...mcp.ClientOption) (*libClient, error) {
 	l := &libClient{}
 	info := mcp.Implementation{Name: "verif-lib-client", Version: "1"}
-	ctx, cancel := context.WithTimeout(context.Background(), 20*time.Second)
+	ctx, cancel := context.WithTimeout(context.Background(), handshake)
 	defer cancel()
 	switch {
 	case w.Mode == ModeStdio:
